@@ -208,7 +208,8 @@ class Module:
     def do_function(self, entry):
         q = entry['py']
         node = self.find(q)
-        method = '.' in q and q.count('.') < 2
+        # Class.method, Class.prop.getter / Class.prop.setter are methods; Class.method.inner is a plain inner function
+        method = '.' in q and (q.count('.') < 2 or q.split('.')[-1] in ('getter', 'setter'))
         want_dec = {'getter': ['property'], 'setter': [q.split('.')[-2] + '.setter']}.get(q.split('.')[-1], []) if method else []
         if [ast.unparse(d) for d in node.decorator_list] != want_dec:
             raise Unsupported(node, 'decorators of %s' % q)
